@@ -324,6 +324,13 @@ pub fn adaptive_scenario(r: &mut Report, seed: u64, variant: usize) {
     let n_same_ip = if neighbours & 1 != 0 { Some(w.raw(SocketAddrV4::new(*wrong.ip(), 7000 + rng.usize(500) as u16))) } else { None };
     let n_same_port = if neighbours & 2 != 0 { Some(w.raw(SocketAddrV4::new(Ipv4Addr::new(74, 4, 4, 4), wrong.port()))) } else { None };
     let mut next_neighbour_ping = t0 + 30 * SEC + rng.below(60) * SEC;
+    // the application checks on its node now and then: bootstrapped() (a lookup of the node's own id)
+    let own_id_lookups = matches!(variant, 0 | 4 | 6) && rng.bool();
+    let mut next_own_lookup = t0 + (5 + rng.below(4)) * MIN;
+    if own_id_lookups {
+        r.count("adaptive_worlds_with_application_lookups_of_the_own_id");
+    }
+    case["own_id_lookups"] = json!(own_id_lookups);
     case["neighbours"] = json!(neighbours);
     if neighbours != 0 {
         r.count("adaptive_worlds_with_pinging_neighbours_of_the_voted_address");
@@ -342,6 +349,10 @@ pub fn adaptive_scenario(r: &mut Report, seed: u64, variant: usize) {
                 }
             }
             next_neighbour_ping = w.now() + 2 * MIN + rng.below(120) * SEC;
+        }
+        if own_id_lookups && w.now() >= next_own_lookup {
+            w.block_on(x.adht.bootstrapped(), 30 * SEC);
+            next_own_lookup = w.now() + (6 + rng.below(4)) * MIN;
         }
         if w.now() >= next_lookup {
             let a = x.adht.clone();
@@ -381,12 +392,24 @@ pub fn adaptive_scenario(r: &mut Report, seed: u64, variant: usize) {
                 if !bep42_valid(info.id().as_bytes(), ip) {
                     r.violation("adaptive/id-not-bep42-valid", "after confirming its address the node's id is not BEP42-valid for it", case.clone(), detail.clone());
                 }
-                // it now answers requests
+                // it now answers requests, and neither its answers nor its own requests are marked read-only any more
                 let probe = w.raw(SocketAddrV4::new(Ipv4Addr::new(73, 3, 3, 3), 3333));
                 w.raw_send(probe, &q_ping(&[9, 9], &[3; 20]), x.addr);
                 let ok = w.run_until(3 * SEC, |w| w.raw_pending(probe) > 0);
                 if !ok {
                     r.violation("adaptive/server-does-not-answer", "node reports server mode but does not answer a ping", case.clone(), detail.clone());
+                } else if let Some((_, d)) = w.raw_recv(probe) {
+                    if Krpc::parse(&d.bytes).map(|k| k.ro).unwrap_or(false) {
+                        r.violation("adaptive/server-answers-flagged-read-only", "after the switch to server mode the node's answers still carry ro = 1 (requesters ignore such answers)", case.clone(), detail.clone());
+                    }
+                }
+                if let Some(ts) = became_server_at {
+                    let late_ro = sends.iter().filter(|m| m.from == x.addr && m.k.y == b'q' && m.t > t0 + ts + 40 * SEC && m.k.ro).count();
+                    let late_all = sends.iter().filter(|m| m.from == x.addr && m.k.y == b'q' && m.t > t0 + ts + 40 * SEC).count();
+                    r.add("requests_sent_after_the_switch_checked_for_ro", late_all as u64);
+                    if late_ro > 0 {
+                        r.violation("adaptive/server-still-marks-requests-read-only", "after the switch to server mode the node's own requests still carry ro = 1 (no server will ever list it)", case.clone(), json!({"requests_after_switch": late_all, "of_which_ro": late_ro, "detail": detail}));
+                    }
                 }
                 r.count("adaptive_switched_to_server");
             }
